@@ -134,7 +134,7 @@ def still_fails(src, name, cfg):
 def removable(l):
     t = l.strip()
     if not l.startswith("  ") or t.startswith(("}", "{")) or t.endswith("{") or "memset" in t:
-        return l.startswith(("static const ", "static volatile ", "enum {"))
+        return (l.startswith("static ") and t.endswith(";")) or l.startswith("enum {")
     if re.match(r"(struct|union|int|long|short|char|unsigned|signed|_Bool|volatile) ", t) and "=" not in t.split(";")[0]:
         return False        # plain declarations stay
     return True
@@ -267,6 +267,7 @@ stats = {"programs": 0, "configs_run": 0, "units": {}, "generator_miss": [], "ti
          "tags_checked_vs_python": 0, "lean_queries": 0, "bf_images": 0, "pairs_covered": set(), "scopy_sizes": set(),
          "bitf_widths": set(), "saddr_sizes": set(), "diff_programs": 0}
 reported = set()
+corpus_diffs = [0]
 
 
 def symptom(res, diff):
@@ -277,8 +278,17 @@ def symptom(res, diff):
     return "output"
 
 
+MAX_MINIMISED = 4 if QUICK else 10      # shrink + classify at most this many generated programs per run
+unminimised = []
+
+
 def report(units, res, name, origin, src=None, fallback_sig=None, rerun=None):
     diff = differing(res)
+    if units is not None and stats["diff_programs"] - corpus_diffs[0] >= MAX_MINIMISED and reported:
+        unminimised.append({"origin": origin, "configs_differing": diff, "kinds": [u["kind"] for u in units],
+                            "first_diff": first_diff(res["gcc0"][1], res[diff[0]][1])})
+        stats["diff_programs"] += 1
+        return None
     if rerun is not None and any(res[c][0] == "timeout" for c in diff):
         res = rerun(120)          # a loaded machine must not turn a slow run into an alarm
         diff = differing(res)
@@ -364,6 +374,7 @@ if os.path.isdir(CORPUS):
                          rerun=lambda tmo, csrc=csrc, f=f: evaluate(csrc, "corpus-r-" + f[:-2], timeout=tmo))
             if mode == "known" and sig != declared:
                 ck.log("note: corpus/C07/%s is filed under %s but now classifies as %s" % (f, declared, sig))
+corpus_diffs[0] = stats["diff_programs"]
 ck.stage("corpus", replayed=corpus_n)
 ck.cov["corpus_replayed"] = corpus_n
 
@@ -594,7 +605,8 @@ ck.cov["distribution"] = {
     "values_checked_against_generator_evaluator": stats["tags_checked_vs_python"],
     "expressions_checked_against_lean_cEval": stats["lean_queries"], "bitfield_images_checked_against_lean": stats["bf_images"],
     "generator_misses": len(stats["generator_miss"]), "generator_miss_samples": stats["generator_miss"][:3],
-    "c2m_timeouts": stats["timeouts"], "programs_with_a_difference": stats["diff_programs"], "c_tests": ct_stats}
+    "c2m_timeouts": stats["timeouts"], "programs_with_a_difference": stats["diff_programs"], "differing_programs_not_minimised": unminimised[:20],
+    "c_tests": ct_stats}
 ck.cov["exhaustive"] = False
 ck.cov["trusted_base"] += ["gcc 12 as reference compiler", "translate/c07_cfun.py (clang-14 JSON AST -> Lean)",
                            "checks/c07_gen.py (UB-freedom of generated programs; canary: gcc -O0 == gcc -O2)"]
